@@ -26,7 +26,7 @@ from ...struct_trail import append_trail, extend_trail, render_trail_as_note
 from ...utils import Omittable, Omitted
 from ..json_schema.definitions import JSONSchema
 from ..json_schema.schema_model import JSONSchemaType, JSONValue
-from .basic_gen import ModelDumperGen, get_skipped_fields
+from .basic_gen import ModelDumperGen, field_id_to_var_suffix, get_skipped_fields
 from .crown_definitions import (
     CrownPath,
     CrownPathElem,
@@ -177,22 +177,22 @@ class BuiltinModelDumperGen(ModelDumperGen):
         return field.id in self._extra_targets
 
     def _v_field(self, field: OutputField) -> str:
-        return f"f_{field.id}"
+        return f"f_{field_id_to_var_suffix(field.id)}"
 
     def _v_dumper(self, field: OutputField) -> str:
-        return f"dumper_{field.id}"
+        return f"dumper_{field_id_to_var_suffix(field.id)}"
 
     def _v_raw_field(self, field: OutputField) -> str:
-        return f"r_{field.id}"
+        return f"r_{field_id_to_var_suffix(field.id)}"
 
     def _v_accessor_getter(self, field: OutputField) -> str:
-        return f"accessor_getter_{field.id}"
+        return f"accessor_getter_{field_id_to_var_suffix(field.id)}"
 
     def _v_trail_element(self, field: OutputField) -> str:
-        return f"trail_element_{field.id}"
+        return f"trail_element_{field_id_to_var_suffix(field.id)}"
 
     def _v_access_error(self, field: OutputField) -> str:
-        return f"access_error_{field.id}"
+        return f"access_error_{field_id_to_var_suffix(field.id)}"
 
     def _gen_access_expr(self, namespace: CascadeNamespace, field: OutputField) -> str:
         accessor = field.accessor
